@@ -618,8 +618,19 @@ def run_history(spec, refs):
     sigparts = []
     nchecked = 0
     for i, op in enumerate(spec['ops']):
+        st0 = ops.interp_state()
+        lim0 = sys.getrecursionlimit()
         rec = ses.do(op)
         kind = op['op']
+        d_ = ops.state_diff(st0, ops.interp_state())
+        if sys.getrecursionlimit() != lim0:
+            d_['recursionlimit'] = [lim0, sys.getrecursionlimit()]
+        if d_ and kind not in ('gc',):
+            viols.append({
+                'cls': 'history:interp-state', 'op_index': i,
+                'msg': 'operation #%d (%s) left interpreter-global state '
+                       'changed: %s - later calls whose outcome depends on '
+                       'it now depend on this history' % (i, kind, d_)})
         if kind == 'call':
             out = rec['out']
             ref = refs.get(rec['key'])
@@ -785,9 +796,26 @@ def run_threads(spec, refs):
             for op in progs[t]:
                 _exec_thread_op(s, tid, op, records[t])
         return body
+    st_before = ops.interp_state()
+    lim_before = sys.getrecursionlimit()
     fatal = s.run([mk(t) for t in range(nth)], wall_timeout=spec.get(
         'timeout', 300.0) - 20)
     viols = []
+    if not fatal:
+        st_after = ops.interp_state()
+        st_after.pop('threads', None)
+        st_before.pop('threads', None)
+        diff = ops.state_diff(st_before, st_after)
+        if sys.getrecursionlimit() != lim_before:
+            diff['recursionlimit'] = [lim_before, sys.getrecursionlimit()]
+        if diff:
+            viols.append({
+                'cls': 'threads:interp-state',
+                'msg': 'after the threads had finished, interpreter-global '
+                       'state was left changed: %s - every later call whose '
+                       'outcome depends on it (deep nesting vs. the '
+                       'recursion limit, memory vs. the collector) now '
+                       'depends on this schedule' % (diff,)})
     if fatal:
         if fatal['kind'] in ('walltimeout', 'harness'):
             return {'status': 'harness', 'msg': fatal['msg']}
@@ -834,6 +862,14 @@ def run_threads(spec, refs):
 
 def on_crash(spec, st):
     return {'status': 'harness', 'msg': 'child died: ' + st}
+
+
+def on_timeout(spec, timeout):
+    return {'status': 'violation', 'viol': [{
+        'cls': 'hang', 'msg': 'the run did not finish within %.0f s of real '
+        'time (it normally takes milliseconds to seconds): some call of the history / some thread never returned' % timeout}],
+        'stats': {'hangs': 1}, 'sigs': [], 'sigs_nt': [], 'nontrivial': True}
+
 
 
 # ---------------------------------------------------------------------------
